@@ -15,7 +15,12 @@ Mirrors, as the code is now,
 Conventions
 
 * a key is a list of characters (`List α`, any type of characters with decidable equality; the
-  driver uses code points), the separator is one character;
+  driver uses code points), the separator is **one character** (`sep : α`, a single symbol).  The API
+  takes `sep: str`; separators of two or more characters are outside this model and outside every
+  theorem about `splitOn` / `joinSep` / `flatten` / `unflatten`: there the real code does not
+  round-trip keys that end / start with a part of the separator although no key contains it
+  (`flatten_dict({'a:': {'b': 1}}, sep='::')` = `{'a:::b': 1}`, read back as `{'a': {':b': 1}}`;
+  known finding `multichar-separator-overlap`, measured on the real code by `harness/props/C19.py`);
 * a Python dictionary is the list of its `(key, value)` pairs in insertion order (`Dict`); `d[k] = v`
   is `Dict.insert` (in place when the key exists, appended otherwise); a `.items()` that repeats a
   key (a `dict` subclass) is a `Dict` with a repeated key;
